@@ -2,9 +2,12 @@ import Driver.Loop
 import Midgard.Model.Rinex3Obs
 import Midgard.Model.Rinex2Obs
 import Midgard.Spec.Rinex
+import Midgard.Spec.Rinex3ObsFile
 
-/-! Driver for C11: `c11 parse3 <rate|-> <hex text>`, `c11 parse2 …` (the parser models) and
-`c11 render3|render2 <records>` (the RINEX 3.04 / 2.11 spec renderer). -/
+/-! Driver for C11: `c11 parse3 <rate|-> <hex text>`, `c11 parse2 …` (the parser models),
+`c11 render3|render2 <records>` (the RINEX 3.04 / 2.11 spec renderer) and
+`c11 file3 <rate|-> <asis|stripped|padded80> <file-model tokens>` (the abstract file of the file-level theorem:
+`wf` (together with the evaluated header hypothesis `hdrOk`), `render`, the instance `readData (fileLines F) = expected rate F`, and `expected` after the post-processors). -/
 namespace Driver.C11
 open Midgard.Proto Midgard.Text Midgard.ChainParser Midgard.RinexObs
 
@@ -61,7 +64,102 @@ def parseRecord? (tok : String) : Option (String × List Str) :=
       pure (k, cs.map String.toList)
   | _ => none
 
+/-! ### the abstract RINEX 3 file of `Spec/Rinex3ObsFile.lean`
+
+tokens: `P:<kind>:<hex,…>` plain header record · `M:<hex>` marker name · `S:<hex sys>:<hex count>:<hex,…;hex,…>` obs types
+line by line · `E:<c>,<c>,…` epoch (year month day hour minute second flag as `hex~value`, numSat as `hex`, clk as
+`hex~value`) · `R:<hex sat>:<c>,<c>,<c>;…` satellite record (value, LLI, SSI as `hex~value`, value `nan` = absent) -/
+section File3
+open Midgard.Spec.Rinex3ObsFile
+
+def strOf (h : String) : Option Str := if h = "" then some [] else (decodeHex? h).map String.toList
+
+def strList (h : String) : Option (List Str) := if h = "" then some [] else (h.splitOn ",").mapM strOf
+
+def optRat? (v : String) : Option (Option Rat) := if v = "nan" then some none else (parseRat? v).map some
+
+def cell? (tok : String) : Option Cell :=
+  match tok.splitOn "~" with
+  | [h, v] => do pure ⟨← strOf h, ← optRat? v⟩
+  | _ => none
+
+def intCell? (tok : String) : Option IntCell :=
+  match tok.splitOn "~" with
+  | [h, v] => do pure ⟨← strOf h, ← v.toInt?⟩
+  | _ => none
+
+def numCell? (tok : String) : Option NumCell :=
+  match tok.splitOn "~" with
+  | [h, v] => do pure ⟨← strOf h, ← parseRat? v⟩
+  | _ => none
+
+def obs? (tok : String) : Option Obs :=
+  match tok.splitOn "," with
+  | [a, b, c] => do pure ⟨← cell? a, ← cell? b, ← cell? c⟩
+  | _ => none
+
+def hdrRec? (tok : String) : Option HdrRec :=
+  match tok.splitOn ":" with
+  | ["P", k, cells] => do pure (.plain k (← strList cells))
+  | ["M", n] => do pure (.marker (← strOf n))
+  | ["S", s, c, ls] => do
+    let lines ← (if ls = "" then some [] else (ls.splitOn ";").mapM strList)
+    pure (.sysObs (← strOf s) (← strOf c) lines)
+  | _ => none
+
+def epochHead? (tok : String) : Option Epoch :=
+  match tok.splitOn "," with
+  | [y, mo, d, h, mi, s, f, n, c] => do
+    pure ⟨← intCell? y, ← intCell? mo, ← intCell? d, ← intCell? h, ← intCell? mi, ← numCell? s, ← intCell? f, ← strOf n, ← cell? c, []⟩
+  | _ => none
+
+def satRec? (sat obs : String) : Option SatRec := do
+  let os ← (if obs = "" then some [] else (obs.splitOn ";").mapM obs?)
+  pure ⟨← strOf sat, os⟩
+
+/-- header records, then epochs (an `R` token belongs to the last `E` token before it) -/
+def file? (style : Style) : List String → List HdrRec → List Epoch → Option File
+  | [], hdr, eps => some ⟨hdr.reverse, (eps.map fun e => { e with sats := e.sats.reverse }).reverse, style⟩
+  | tok :: rest, hdr, eps =>
+    match tok.splitOn ":" with
+    | ["E", e] => do file? style rest hdr ((← epochHead? e) :: eps)
+    | ["R", sat, obs] =>
+      match eps with
+      | e :: es => do file? style rest hdr ({ e with sats := (← satRec? sat obs) :: e.sats } :: es)
+      | [] => none
+    | _ => do file? style rest ((← hdrRec? tok) :: hdr) eps
+
+def style? : String → Option Style
+  | "asis" => some .asis
+  | "stripped" => some .stripped
+  | "padded80" => some .padded80
+  | _ => none
+
+def instanceHolds (rate : Option Rat) (F : File) : Bool :=
+  match readData Midgard.Rinex3Obs.headerParser Midgard.Rinex3Obs.obsParser Midgard.Rinex3Obs.resetCache (fileLines F) true 0 { rate := rate },
+        expected rate F with
+  | .ok a, .ok b => a == b
+  | .error a, .error b => a == b
+  | _, _ => false
+
+def file3 (rate : Option Rat) (F : File) : String :=
+  let out := match expected rate F with
+    | .error e => showErr e
+    | .ok s =>
+      match Midgard.Rinex3Obs.finish s with
+      | .ok s' => " ".intercalate (metaTokens s'.metaD ++ dataTokens s'.data s'.timeScale)
+      | .noRows => "ERR:no-rows"
+      | .error e => showErr e
+  s!"wf={if F.wf && hdrOk rate F.hdr then 1 else 0} inst={if instanceHolds rate F then 1 else 0} text={hx (render F)} | {out}"
+
+end File3
+
 def handle : List String → Option String
+  | "c11" :: "file3" :: r :: st :: toks => do
+    let rate ← parseRate? r
+    let style ← style? st
+    let F ← file? style toks [] []
+    pure (file3 rate F)
   | ["c11", "parse3", r, h] => do
     let rate ← parseRate? r
     let text ← decodeHex? h
